@@ -232,7 +232,11 @@ def c11_events(ctx, binp):
         settings, fps = gen_settings(rng)
         settings["motion"], settings["const"] = None, True
         conn, ev, fid = build_conn(rng, dict(settings, motion={}), 4, 3, fps, model, 1, 3 * (settings["max"] * fps + 1) + 2, with_clear=False)
-        evs = run_e2e(ctx, binp, dict(config=toml(settings), prefiles=[], conns=[conn]), "c11_def_" + model.replace(".", ""))
+        try:
+            evs = run_e2e(ctx, binp, dict(config=toml(settings), prefiles=[], conns=[conn]), "c11_def_" + model.replace(".", ""))
+        except DaemonCrash as dc:
+            runs.append(dict(kind="crash", settings=settings, fps=fps, model=model, msg=dc.msg, result=dict(files=[], constant=[])))
+            continue
         last = [e for e in evs if e["ev"] == "e2e-conn-done"][-1]
         runs.append(dict(kind="defaults", settings=settings, fps=fps, model=model, result=last, expected_motion=DEFAULTS[model]))
     stats = dict(runs=len(runs), predicted_runs=nruns,
@@ -330,6 +334,8 @@ def judge_c11(ctx, runs, binp=None, second_pass=False):
                     bad.append("background-not-first")
             for bdesc in bad:
                 key = "C11:e2e-" + bdesc
+                if any(v["key"] == key for v in violations):
+                    continue
                 rp = vlib.save_replay(ctx, "e2e_hdr_%d" % ri, dict(family="files", property="C11", clause=key, settings=s,
                                       model=run["model"], file=f))
                 violations.append(dict(key=key, replay=rp, what="run %d file %s" % (ri, f["name"])))
